@@ -82,6 +82,29 @@ fn contiguous(net: &[Link], seq: &[usize]) -> bool {
     })
 }
 
+/// every composition of n into positive parts
+fn compositions(n: usize) -> Vec<Vec<usize>> {
+    let mut out = vec![];
+    if n == 0 {
+        return out;
+    }
+    for mask in 0..(1u32 << (n - 1)) {
+        let mut part = vec![];
+        let mut run = 1usize;
+        for b in 0..(n - 1) {
+            if mask & (1 << b) != 0 {
+                part.push(run);
+                run = 1;
+            } else {
+                run += 1;
+            }
+        }
+        part.push(run);
+        out.push(part);
+    }
+    out
+}
+
 fn wrap_abs(d: f64) -> f64 {
     // minimal absolute angular difference
     let two_pi = 2.0 * std::f64::consts::PI;
@@ -124,6 +147,20 @@ pub fn evaluate(net: &Network, tp: &TrainParams, c: &Case, checks: &mut u64) -> 
             *checks += 1;
             if is_contig {
                 v.push(("contiguous-route-rejected@PathTpc::extend".into(), e.chars().take(300).collect()));
+            } else {
+                // a non-contiguous route must be rejected however it is split into extend calls
+                for part in compositions(c.seq.len()) {
+                    if part == c.partition {
+                        continue;
+                    }
+                    *checks += 1;
+                    let c2 = Case { partition: part.clone(), ..c.clone() };
+                    match guarded(|| build(net, tp, &c2)) {
+                        Ok(Ok(_)) => v.push(("non-contiguous-route-accepted@PathTpc::extend".into(), format!("sequence {:?} is not contiguous but is accepted when extended as {:?}", c.seq, part))),
+                        Ok(Err(_)) => {}
+                        Err(p) => v.push(("panic@PathTpc::extend:non-contiguous".into(), p.chars().take(200).collect())),
+                    }
+                }
             }
             return (v, "err".into());
         }
